@@ -153,28 +153,6 @@ NV == Len(Values)
 Defs == <<"", "Homo sapiens", "{x} y", "x=1", "a b=1;">>
 BadDefs == <<"x=1;", " padded", "x = 'a'; rest">>
 
-(* what a value comes back as (type changes that keep the value) *)
-BackType(r) ==
-  IF r.t = "float" /\ Integral(NumOf(r.v)) THEN "int"
-  ELSE IF r.t \in {"mapint", "mapstr"} /\ KeyClass(r.k) = "any" THEN "map"
-  ELSE r.t
-Back(r) == [k |-> r.k, t |-> BackType(r),
-            v |-> IF r.t \in {"int", "float"} THEN CanonNum(r.v) ELSE r.v,
-            m |-> {IF mb.t = "num" THEN Member(mb.k, "num", CanonNum(mb.v)) ELSE mb : mb \in {r.ms[i] : i \in 1..Len(r.ms)}}]
-
-(* the syntactic statement of representability of one annotation *)
-ReprMembers(r) == \A i \in 1..Len(r.ms) : PlainText(r.ms[i].k) /\ (r.ms[i].t = "str" => PlainText(r.ms[i].v))
-Repr(r) ==
-  /\ ReprKey(r.k)
-  /\ CASE r.t = "str"    -> ReprStr(r.v)
-       [] r.t = "int"    -> TRUE
-       [] r.t = "float"  -> TRUE
-       [] r.t = "bool"   -> TRUE
-       [] r.t = "mapint" -> ReprMembers(r) /\ KeyClass(r.k) # "str"
-       [] r.t = "mapstr" -> ReprMembers(r) /\ KeyClass(r.k) # "int"
-       [] r.t = "map"    -> ReprMembers(r)
-       [] OTHER          -> FALSE
-
 RECURSIVE WriteEntriesR(_)
 WriteEntriesR(rs) == IF rs = <<>> THEN <<>> ELSE EntryText(rs[1].k, rs[1].t, rs[1].v, rs[1].ms) \o WriteEntriesR(Tail(rs))
 WriteRec(rs, def) == WriteEntriesR(rs) \o DefText(def)
@@ -212,7 +190,7 @@ Init ==
         \* the small tier keeps blanks around keys and values for single entries followed by one blank only
         /\ (AllTails \/ style = "plain" \/ (sep = 2 /\ d = 0 /\ tail # 1))
      \/ "strings" \in Families /\ fam = "strings" /\ i = 0 /\ d = 0 /\ sep = 0 /\ style = "" /\ tail = 0
-     \/ "records" \in Families /\ fam = "records" /\ i \in 1..NV /\ d \in 0..2 /\ sep = 0 /\ style = ""
+     \/ "records" \in Families /\ fam = "records" /\ i \in 0..NV /\ d \in 0..2 /\ sep = 0 /\ style = "" /\ (i = 0 => d = 0)   \* i = 0: no annotation but the definition
         /\ tail \in (IF d = 0 THEN 1..(Len(Defs) + Len(BadDefs)) ELSE {d, 3})
      \/ "guess" \in Families /\ fam = "guess" /\ i \in 1..Len(Guesses) /\ d = 0 /\ sep = 0 /\ style = "" /\ tail = 0
 
@@ -281,7 +259,8 @@ NumCanonFixed == (fam = "strings" /\ pc = "done" /\ IsNum(Trim(s))) =>
 DefOf == IF tail <= Len(Defs) THEN Chars(Defs[tail]) ELSE Chars(BadDefs[tail - Len(Defs)])
 DefOk == tail <= Len(Defs)
 Others == IF d = 0 THEN <<>> ELSE IF d = 1 THEN <<Values[1], Values[9]>> ELSE <<Values[15], Values[4], Values[17]>>
-RecEntries == IF d > 0 /\ \E j \in 1..Len(Others) : Others[j].k = Values[i].k THEN Others ELSE <<Values[i]>> \o Others
+RecEntries == IF i = 0 THEN <<>>
+              ELSE IF d > 0 /\ \E j \in 1..Len(Others) : Others[j].k = Values[i].k THEN Others ELSE <<Values[i]>> \o Others
 RecRepr == (\A j \in 1..Len(RecEntries) : Repr(RecEntries[j])) /\ DefOk
 Text1 == WriteRec(RecEntries, DefOf)
 Text2 == WriteRec(Reverse(RecEntries), DefOf)
@@ -300,7 +279,7 @@ ComesBack(w) == LET rd == ReadHeader(WriteEntriesR(RecEntries) \o Chars(Witnesse
                     rw == ReadHeader(Chars(Witnesses[w]))
                 IN  Annots(rd.ents) = BackSet \cup Annots(rw.ents) /\ rd.def = DefOf
 
-ReprMatchesPool == (fam = "records" /\ pc = "done") => (Repr(Values[i]) <=> Values[i].ok)
+ReprMatchesPool == (fam = "records" /\ pc = "done" /\ i > 0) => (Repr(Values[i]) <=> Values[i].ok)
 RoundTrip == (fam = "records" /\ pc = "done" /\ RecRepr) =>
    Annots(out.rd.ents) = BackSet /\ out.rd.def = DefOf /\ Len(out.rd.ents) = Len(RecEntries)
 OrderFree == (fam = "records" /\ pc = "done" /\ RecRepr) =>
@@ -308,13 +287,14 @@ OrderFree == (fam = "records" /\ pc = "done" /\ RecRepr) =>
 Stable == (fam = "records" /\ pc = "done" /\ RecRepr) =>
    ReadHeader(Rewrite(out.rd)) = [ents |-> out.rd.ents, def |-> out.rd.def]
 RepresentableAnywhere == (fam = "records" /\ pc = "done" /\ RecRepr /\ d = 0) => \A w \in 2..Len(Witnesses) : ComesBack(w)
-NotRepresentable == (fam = "records" /\ pc = "done" /\ d = 0 /\ ~Values[i].ok /\ DefOk) =>
+NotRepresentable == (fam = "records" /\ pc = "done" /\ d = 0 /\ i > 0 /\ ~Values[i].ok /\ DefOk) =>
    \E w \in 1..Len(Witnesses) : ~ComesBack(w)
 BadDefinitions == (fam = "records" /\ pc = "done" /\ i = 1 /\ d = 0 /\ ~DefOk) =>
    ~(Annots(out.rd.ents) = BackSet /\ out.rd.def = DefOf)
 DefsAreDefinitions == (fam = "records" /\ pc = "done") => (ReprDef(DefOf) <=> DefOk)
 (* the guess on what the writer produced *)
-GuessOnWritten == (fam = "records" /\ pc = "done" /\ RecRepr) => Guess(AfterId(Text1)) = "obi"
+LoneBrace == RecEntries = <<>> /\ DefOf # <<>> /\ DefOf[1] = "{"
+GuessOnWritten == (fam = "records" /\ pc = "done" /\ RecRepr) => (Guess(AfterId(Text1)) = "obi" <=> ~LoneBrace)
 GuessLoneDefinition == (fam = "records" /\ pc = "done" /\ DefOk) =>
    (Guess(AfterId(WriteRec(<<>>, DefOf))) = "json" <=> (DefOf # <<>> /\ DefOf[1] = "{"))
 
@@ -356,7 +336,7 @@ ExportLine == [op |-> "parse", cls |-> "lines/" \o ValueClass(Forms[i]) \o "/sep
                r |-> ReadJ(out)]
 ExportString(c) == [op |-> "parse", cls |-> "strings/" \o (IF ReprStr(s) THEN "representable" ELSE "not-representable") \o "/ctx" \o ToString(c),
                     r |-> ReadJ(IF c = 1 THEN out.r1 ELSE out.r2)]
-ExportRecord == [op |-> "rt", cls |-> "records/" \o Values[i].t \o (IF RecRepr THEN "/representable" ELSE "/not-representable")
+ExportRecord == [op |-> "rt", cls |-> "records/" \o (IF i = 0 THEN "none" ELSE Values[i].t) \o (IF RecRepr THEN "/representable" ELSE "/not-representable")
                                       \o "/with" \o ToString(Len(RecEntries) - 1) \o (IF DefOf = <<>> THEN "/nodef" ELSE "/def"),
                  rec |-> [j \in 1..Len(RecEntries) |-> [k |-> Str(RecEntries[j].k), t |-> RecEntries[j].t, v |-> Str(RecEntries[j].v),
                                                         m |-> MemJ(RecEntries[j].ms)]],
